@@ -151,6 +151,12 @@ pub struct AppState {
     pub log: Mutex<Vec<(String, String, String, Vec<u8>)>>,
 }
 
+/// 8 MiB: larger than what the socket buffers take in one non-blocking write
+pub fn huge_body() -> Arc<Vec<u8>> {
+    static B: std::sync::OnceLock<Arc<Vec<u8>>> = std::sync::OnceLock::new();
+    B.get_or_init(|| Arc::new((0..(8u32 << 20)).map(|i| ((i >> 3) % 249) as u8 ^ (i as u8)).collect())).clone()
+}
+
 pub fn big_body() -> Vec<u8> {
     (0..70_000u32).map(|i| (i % 251) as u8).collect()
 }
@@ -257,6 +263,7 @@ pub fn build_app(threads: usize, timeout: bool, cors_kind: u8) -> (App<AppState>
             logit(&st, &r);
             Response::new(StatusCode::OK, big_body())
         })
+        .with_route("/huge", move |_r: Request, _st: Arc<AppState>| Response::new(StatusCode::OK, huge_body().as_ref().clone()))
         .with_cors_config("/cors", cors_for(cors_kind))
         .with_connection_timeout(if timeout { Some(Duration::from_millis(TIMEOUT_MS)) } else { None });
     (app, st)
@@ -980,6 +987,167 @@ pub fn pool_recovery(threads: usize, panics: usize, ip: &str, start: StartFn) ->
     fails
 }
 
+/// Reads one Content-Length framed response (headers + body) from `s`; leftover bytes stay in `buf`.
+fn read_framed(s: &mut TcpStream, buf: &mut Vec<u8>, max: Duration) -> Result<(u16, Vec<u8>), String> {
+    let deadline = Instant::now() + max;
+    let mut tmp = vec![0u8; 1 << 16];
+    loop {
+        while buf.starts_with(b"\r\n") {
+            buf.drain(..2); // stray CRLF after the previous body (known finding)
+        }
+        if let Some(p) = buf.windows(4).position(|w| w == b"\r\n\r\n") {
+            let head = String::from_utf8_lossy(&buf[..p]).to_string();
+            let status: u16 = head.split(' ').nth(1).and_then(|x| x.parse().ok()).unwrap_or(0);
+            let cl: usize = head.lines().filter_map(|l| l.split_once(':')).find(|(n, _)| n.eq_ignore_ascii_case("content-length")).and_then(|(_, v)| v.trim().parse().ok()).unwrap_or(0);
+            if buf.len() >= p + 4 + cl {
+                let body = buf[p + 4..p + 4 + cl].to_vec();
+                buf.drain(..p + 4 + cl);
+                return Ok((status, body));
+            }
+        }
+        if Instant::now() >= deadline {
+            return Err(format!("no complete response within {:?} ({} bytes received)", max, buf.len()));
+        }
+        let _ = s.set_read_timeout(Some(Duration::from_millis(200)));
+        match s.read(&mut tmp) {
+            Ok(0) => return Err(format!("connection closed after {} bytes of a response", buf.len())),
+            Ok(n) => buf.extend_from_slice(&tmp[..n]),
+            Err(e) if e.kind() == std::io::ErrorKind::WouldBlock || e.kind() == std::io::ErrorKind::TimedOut => {}
+            Err(e) => return Err(format!("read error after {} bytes: {}", buf.len(), e)),
+        }
+    }
+}
+
+/// A pause *inside* a request that is longer than the connection timeout: the timeout is about waiting for a request,
+/// so the request must still get its one response. `pos`: 0 after the first byte, 1 inside the header section, 2 between
+/// head and body, 3 inside the body. `second`: the slow request is the second one of a keep-alive connection.
+pub fn slow_request(pos: u8, second: bool, ip: &str, start: StartFn, has_timeout: bool) -> Vec<Fail> {
+    let running = match start(2, has_timeout, 0, ip) {
+        Ok(r) => r,
+        Err(e) => return vec![Fail::new("harness-app", e)],
+    };
+    let mut fails = Vec::new();
+    let mut s = match connect_retry(running.addr(), Duration::from_secs(5)) {
+        Ok(s) => s,
+        Err(e) => return vec![Fail::new("harness-connect", e.to_string())],
+    };
+    let _ = s.set_nodelay(true);
+    let mut buf = Vec::new();
+    if second {
+        let _ = s.write_all(b"GET /echo?n=first HTTP/1.1\r\nHost: x\r\nConnection: keep-alive\r\n\r\n");
+        if let Err(e) = read_framed(&mut s, &mut buf, Duration::from_secs(10)) {
+            let _ = running.stop(Duration::from_secs(15));
+            return vec![Fail::new("harness-exchange", e)];
+        }
+    }
+    let body = b"slow-body-0123456789";
+    let req = format!("POST /echo?n=slow HTTP/1.1\r\nHost: x\r\nConnection: keep-alive\r\nX-Pad: {}\r\nContent-Length: {}\r\n\r\n", "p".repeat(40), body.len());
+    let mut wire = req.clone().into_bytes();
+    wire.extend_from_slice(body);
+    let cut = match pos % 4 {
+        0 => 1,
+        1 => req.len() / 2,
+        2 => req.len(),
+        _ => req.len() + body.len() / 2,
+    };
+    let _ = s.write_all(&wire[..cut]);
+    std::thread::sleep(Duration::from_millis(TIMEOUT_MS + 350));
+    let _ = s.write_all(&wire[cut..]);
+    match read_framed(&mut s, &mut buf, Duration::from_secs(6)) {
+        Ok((200, b)) if b.ends_with(body) => {}
+        Ok((st, b)) => fails.push(fail!("slow-request-wrong-response", "a request with a {} ms pause after byte {} (connection timeout {} ms{}) was answered {} {:?}", TIMEOUT_MS + 350, cut, TIMEOUT_MS, if second { ", second request of the connection" } else { "" }, st, show(&b[..b.len().min(60)]))),
+        Err(e) => fails.push(fail!(
+            "slow-request-not-answered",
+            "a well-formed request delivered with a {} ms pause after byte {} of {} ({}connection timeout {} ms: the timeout is about waiting for a request, not about a slow one) got no response: {}",
+            TIMEOUT_MS + 350, cut, wire.len(), if second { "second request of a keep-alive connection; " } else { "" }, TIMEOUT_MS, e
+        )),
+    }
+    drop(s);
+    if let Err(e) = running.stop(Duration::from_secs(15)) {
+        fails.push(Fail::new("harness-stop", e));
+    }
+    fails
+}
+
+/// An 8 MiB response read by a client that starts reading late: body exactly as long as its Content-Length, intact,
+/// and the next request on the connection is answered (framing intact).
+pub fn huge_response(delay_ms: u64, ip: &str, start: StartFn) -> Vec<Fail> {
+    let running = match start(2, false, 0, ip) {
+        Ok(r) => r,
+        Err(e) => return vec![Fail::new("harness-app", e)],
+    };
+    let mut fails = Vec::new();
+    let mut s = match connect_retry(running.addr(), Duration::from_secs(5)) {
+        Ok(s) => s,
+        Err(e) => return vec![Fail::new("harness-connect", e.to_string())],
+    };
+    let mut buf = Vec::new();
+    let _ = s.write_all(b"GET /huge HTTP/1.1\r\nHost: x\r\nConnection: keep-alive\r\n\r\n");
+    std::thread::sleep(Duration::from_millis(delay_ms));
+    let want = huge_body();
+    match read_framed(&mut s, &mut buf, Duration::from_secs(20)) {
+        Ok((200, b)) if b == *want => {
+            let _ = s.write_all(b"GET /echo?n=after-huge HTTP/1.1\r\nHost: x\r\nConnection: close\r\n\r\n");
+            match read_framed(&mut s, &mut buf, Duration::from_secs(10)) {
+                Ok((200, _)) => {}
+                Ok((st, _)) => fails.push(fail!("huge-response-breaks-framing", "the request after an 8 MiB response was answered {}", st)),
+                Err(e) => fails.push(fail!("huge-response-breaks-framing", "the request after an 8 MiB response on the same connection was not answered: {}", e)),
+            }
+        }
+        Ok((st, b)) => fails.push(fail!("huge-response-body", "8 MiB response read {} ms late: status {}, {} body bytes, {}", delay_ms, st, b.len(), if b.len() == want.len() { "content differs" } else { "length differs from Content-Length's promise" })),
+        Err(e) => fails.push(fail!("huge-response-truncated", "a response with Content-Length {} read by a client that starts reading {} ms late did not arrive completely: {}", want.len(), delay_ms, e)),
+    }
+    drop(s);
+    if let Err(e) = running.stop(Duration::from_secs(15)) {
+        fails.push(Fail::new("harness-stop", e));
+    }
+    fails
+}
+
+/// the two sub-checks above for one runtime
+pub fn extras(ctx: &Ctx, ip_base: &str, start: StartFn, has_timeout: bool, kind_prefix: &str) {
+    let mut jobs: Vec<(u8, u8, bool)> = Vec::new(); // (kind, pos, second)
+    if has_timeout {
+        for pos in 0..4u8 {
+            for second in [false, true] {
+                jobs.push((0, pos, second));
+            }
+        }
+    }
+    for k in 0..ctx.tier.pick(2u8, 8u8) {
+        jobs.push((1, k, false));
+    }
+    let next = std::sync::atomic::AtomicUsize::new(0);
+    let found: Mutex<Vec<(Fail, J)>> = Mutex::new(Vec::new());
+    crate::engine::shards(jobs.len().min(10), |sh| loop {
+        let i = next.fetch_add(1, std::sync::atomic::Ordering::SeqCst);
+        if i >= jobs.len() {
+            break;
+        }
+        let (kind, pos, second) = jobs[i];
+        let ip = format!("{}.{}", ip_base, 120 + sh);
+        let (f, label, case) = if kind == 0 {
+            (slow_request(pos, second, &ip, start, has_timeout), "pause-inside-request-longer-than-the-timeout", json!({"sub": "slow", "pos": pos, "second": second}))
+        } else {
+            (huge_response(100 + 50 * pos as u64, &ip, start), "8MiB-response-read-late", json!({"sub": "huge", "delay_ms": 100 + 50 * pos as u64}))
+        };
+        ctx.case(hash_of(&(kind_prefix, kind, pos, second)), true, &[label]);
+        ctx.sample(label, || case.clone());
+        for x in f {
+            if x.sig.starts_with("harness-") {
+                ctx.inconclusive(&format!("{}: {}", x.sig, x.detail));
+            } else {
+                found.lock().unwrap().push((x, case.clone()));
+            }
+        }
+    });
+    for (f, c) in found.into_inner().unwrap() {
+        if !ctx.tolerate(&f) {
+            ctx.violation(f, &format!("{}extra", kind_prefix), c);
+        }
+    }
+}
+
 // ------------------------------------------------------------------------------------------ generator
 
 pub fn arb_req() -> impl Strategy<Value = Req> {
@@ -1111,6 +1279,7 @@ pub fn run(ctx: &Ctx) {
         }
     });
     ctx.sample("pool-recovery", || json!({"scenario": "N..N+2 handler panics on an N-thread pool, then N simultaneous keep-alive connections must all be answered"}));
+    extras(ctx, "127.0.1", &start_sync, true, "");
     for (f, c) in found.into_inner().unwrap() {
         if !ctx.tolerate(&f) {
             ctx.violation(f, "recovery", c);
@@ -1126,6 +1295,13 @@ pub fn replay(_ctx: &Ctx, kind: &str, case: &J) -> Vec<Fail> {
             Err(e) => vec![Fail::new("harness", format!("bad replay case: {}", e))],
         },
         "recovery" => pool_recovery(case["threads"].as_u64().unwrap_or(1) as usize, case["panics"].as_u64().unwrap_or(1) as usize, "127.0.1.99", &start_sync),
+        "extra" => {
+            if case["sub"] == "slow" {
+                slow_request(case["pos"].as_u64().unwrap_or(0) as u8, case["second"].as_bool().unwrap_or(false), "127.0.1.99", &start_sync, true)
+            } else {
+                huge_response(case["delay_ms"].as_u64().unwrap_or(150), "127.0.1.99", &start_sync)
+            }
+        }
         _ => vec![Fail::new("harness", format!("unknown replay kind {}", kind))],
     }
 }
